@@ -688,7 +688,7 @@ def run_histories(ctx, d, hists, chunk=None):
             res += [None] * len(part)
             continue
         exprs = ["(c12-run '(%s))" % " ".join(scm_op(o) for o in h) for h in part]
-        r = scm.run_cases(d, exprs, prelude_extra=prelude, imports=IMPORTS, chunk=chunk, timeout=(60 if ctx.thorough else 10))
+        r = scm.run_cases(d, exprs, prelude_extra=prelude, imports=IMPORTS, chunk=chunk, timeout=(120 if ctx.thorough else 25))
         bad += sum(1 for x in r if x is None or x.startswith(("TIMEOUT", "CRASH")))
         res += r
     return res
@@ -976,10 +976,12 @@ def gen_port_cases(ctx, n_big, n_custom):
                 big.append((base, w, k))
     rng.shuffle(big)
     systematic = [(PORT_BUF - BUF_START, w, k) for w in (2, 3, 4) for k in range(1, w)]     # the straddling ones on the fd arm first
-    plan = systematic + big
+    # ... then on FILE* ports: the character straddles stdio's own 4096-byte buffer, peek-char pushes up to 4 bytes back with ungetc
+    systematic_file = [(PORT_BUF, w, k) for w in (2, 3, 4) for k in range(1, w)]
+    plan = systematic + systematic_file + big
     for n in range(n_big):
         base, w, k = plan[n % len(plan)]
-        kind = "fd" if n < len(systematic) else rng.choice(PORT_KINDS_BIG)
+        kind = "fd" if n < len(systematic) else "file" if n < len(systematic) + len(systematic_file) else rng.choice(PORT_KINDS_BIG)
         c1 = rng.choice(BY_WIDTH[w])
         w2 = rng.choice([2, 3, 4])
         c2 = rng.choice(BY_WIDTH[w2])
@@ -1053,7 +1055,7 @@ def check_ports(ctx, exe, d, n_big, n_custom, n_write):
     mo = [None] * len(cases)
     for n, m in zip(with_model, mo_sub):
         mo[n] = m
-    res = scm.run_cases(d, exprs, prelude_extra=prelude, imports=IMPORTS, chunk=40, timeout=60)
+    res = scm.run_cases(d, exprs, prelude_extra=prelude, imports=IMPORTS, chunk=24, timeout=120)
     reported, nb = {}, 0
     for n, (kind, cs, sched, hot, ops, exp) in enumerate(cases):
         got = parse_fields(res[n]) if res[n] and not res[n].startswith(("TIMEOUT", "CRASH", "ERR")) else None
@@ -1279,7 +1281,7 @@ def check_illformed_ports(ctx, exe, d, n_big):
     bigm = [n for n, c in enumerate(cases) if len(c[1]) >= 200][:(4 if not ctx.thorough else 60)]
     with_model = sorted(small + bigm)
     mo = dict(zip(with_model, ctx.run_model(exe, [mlines[n] for n in with_model])))
-    res = scm.run_cases(d, exprs, prelude_extra=prelude, imports=IMPORTS, chunk=60, timeout=60)
+    res = scm.run_cases(d, exprs, prelude_extra=prelude, imports=IMPORTS, chunk=60, timeout=150)
     reported, nb = {}, 0
     for n, (kind, raw, sched, ops, cls) in enumerate(cases):
         exp = exps[n]
@@ -1622,7 +1624,7 @@ def check_ranges(ctx, exe, d, n_strings, n_big):
     per = 40
     groups = [cases[i:i + per] for i in range(0, len(cases), per)]
     exprs = ["(c12-range-run \"%s\" '(%s))" % (path, " ".join(c[1] for c in g)) for g in groups]
-    res = scm.run_cases(d, exprs, prelude_extra=prelude, imports=IMPORTS, chunk=25, timeout=(40 if not ctx.thorough else 120))
+    res = scm.run_cases(d, exprs, prelude_extra=prelude, imports=IMPORTS, chunk=25, timeout=(90 if not ctx.thorough else 400))
     with_model = [c for c in cases if c[5] is not None and RANGE_MODEL]
     mo = ctx.run_model(exe, [c[5] for c in with_model]) if with_model else []
     mo = dict(zip([id(c) for c in with_model], mo))
@@ -1699,7 +1701,14 @@ def check_ranges(ctx, exe, d, n_strings, n_big):
                         ctx.violation(sig, input="(c12-range-run \"%s\" '(%s))" % (os.path.join(B.SCRATCH, "c12-range-replay.bin"), c[1][:3000]), step=0,
                                       expected=c[2][:600], observed=str(r1)[:300] if f1 is None else f1[0][:600], replay="./check C12 --replay <this file>")
             if not found:
-                ctx.violation("crash-or-hang:range:group", input=e[:3000], expected="one field per case", observed=str(r)[:300], replay="./check C12 --replay <this file>")
+                # every case passes alone: a time-out of the whole chunk on a loaded machine, or a hang that needs the sequence.  Decide by
+                # running the group once more, alone, with a long time limit
+                again = scm.run_cases(d, [e], prelude_extra=prelude, imports=IMPORTS, chunk=1, timeout=300)[0]
+                fa = parse_fields(again) if again and not again.startswith(("TIMEOUT", "CRASH", "ERR")) else None
+                if fa is not None and len(fa) == len(g) and all(c[0] == "cf" or fa[k] == c[2] for k, c in enumerate(g)):
+                    ctx.note("range stream: a chunk timed out (loaded machine); the group passed when re-run alone")
+                else:
+                    ctx.violation("crash-or-hang:range:group", input=e[:3000], expected="one field per case", observed=str(again)[:300], replay="./check C12 --replay <this file>")
     if cases:
         ctx.sample(dict(kind="range", request=exprs[0][:400], impl=str(res[0])[:400]))
     try:
